@@ -45,7 +45,7 @@ type Env struct {
 }
 
 func (g *FnGen) newEnv(cur, old *State) *Env {
-	return &Env{c: g.c, g: g, cur: cur, hst: cur, old: old, vars: map[string]TVal{}, pkg: g.fn.Pkg.Pkg}
+	return &Env{c: g.c, g: g, cur: cur, hst: cur, old: old, vars: map[string]TVal{}, pkg: g.fn.Pkg.Pkg, file: g.c.ctrFile[g.fc]}
 }
 
 func (e *Env) with(name string, v TVal) *Env {
@@ -260,7 +260,7 @@ func (e *Env) ident(name string) TVal {
 		g := e.g
 		_, isParam := g.params[name]
 		if !(isParam && (e.post || e.oldMode)) {
-			if name == "iter" {
+			if _, isLocal := e.cur.names[name]; name == "iter" && !isLocal {
 				if a, ok := e.cur.names["rangeindex"]; ok {
 					return TVal{term: app("+", e.cur.locals[a], "1"), ty: intTy()}
 				}
@@ -336,16 +336,11 @@ func (e *Env) object(obj types.Object) TVal {
 }
 
 func (e *Env) importedPkg(name string) *types.Package {
-	if e.pkg == nil {
-		return nil
+	f := e.file
+	if f == nil {
+		f = e.c.curFile
 	}
-	for _, imp := range e.pkg.Imports() {
-		if imp.Name() == name {
-			return imp
-		}
-	}
-	// fall back: any loaded package with that name, unique
-	return e.c.pkgByName(name)
+	return e.c.resolvePkg(name, e.pkg, f)
 }
 
 func (e *Env) field(n *EField) TVal {
@@ -647,6 +642,16 @@ func (e *Env) call(n *ECall) TVal {
 	case "arr":
 		v := e.eval(n.Args[0])
 		return TVal{term: app("s-arr", v.term), ty: Ty{sort: "Ref"}}
+	case "root": // allocation id of the object a slice / pointer / map refers to
+		v := e.eval(n.Args[0])
+		r := v.term
+		switch v.ty.sort {
+		case "Slice":
+			r = app("s-arr", r)
+		case "Iface":
+			r = app("i-val", r)
+		}
+		return TVal{term: app("rid", r), ty: intTy()}
 	case "isnil":
 		v := e.eval(n.Args[0])
 		a, _ := e.coerceNil(TVal{term: "nil", ty: Ty{sort: "Nil"}}, v)
@@ -812,7 +817,11 @@ func withPatterns(body string, bound []string) string {
 	}
 	for _, b := range bound {
 		if len(cands[b]) == 0 {
-			return body
+			if t := appPattern(body, b, bound); t != "" {
+				cands[b] = []string{t}
+			} else {
+				return body
+			}
 		}
 	}
 	// one multi-pattern per combination of the first variable's candidates with the first candidate of the others
@@ -842,4 +851,69 @@ func containsToken(s, tok string) bool {
 		}
 		i = end
 	}
+}
+
+var nonPatternHeads = map[string]bool{"+": true, "-": true, "*": true, "<": true, "<=": true, ">": true, ">=": true, "=": true,
+	"and": true, "or": true, "not": true, "=>": true, "ite": true, "select": true, "store": true, "tdiv": true, "tmod": true,
+	"div": true, "mod": true, "imin": true, "imax": true, "forall": true, "exists": true, "let": true, "!": true, "distinct": true}
+
+// appPattern finds an application (f ... b ...) of an uninterpreted / spec
+// function with the bound variable b as a direct argument and no other bound variable inside.
+func appPattern(body, b string, bound []string) string {
+	for i := 0; i < len(body); i++ {
+		if body[i] != '(' {
+			continue
+		}
+		j := i + 1
+		for j < len(body) && !strings.ContainsRune(" ()", rune(body[j])) {
+			j++
+		}
+		head := body[i+1 : j]
+		if head == "" || nonPatternHeads[head] || strings.HasPrefix(head, "(") || strings.HasPrefix(head, "_") {
+			continue
+		}
+		// extract the balanced term and its direct arguments
+		depth, k := 0, i
+		for ; k < len(body); k++ {
+			if body[k] == '(' {
+				depth++
+			} else if body[k] == ')' {
+				depth--
+				if depth == 0 {
+					break
+				}
+			}
+		}
+		t := body[i : k+1]
+		direct := false
+		d := 0
+		for x := 1; x < len(t)-1; x++ {
+			switch t[x] {
+			case '(':
+				d++
+			case ')':
+				d--
+			case ' ':
+				if d == 0 && strings.HasPrefix(t[x+1:], b) {
+					end := x + 1 + len(b)
+					if end < len(t) && strings.ContainsRune(" )", rune(t[end])) {
+						direct = true
+					}
+				}
+			}
+		}
+		if !direct {
+			continue
+		}
+		ok := true
+		for _, ob := range bound {
+			if ob != b && containsToken(t, ob) {
+				ok = false
+			}
+		}
+		if ok && !strings.Contains(t, "(+ ") && !strings.Contains(t, "(- ") {
+			return t
+		}
+	}
+	return ""
 }
